@@ -120,7 +120,7 @@ def check(run):
     import p12
     p12.remove_timer_rule(run)
     rs = [c for c in rn.calls() if (c.get('callee') or '').endswith('io_context::restart') and q.render(rn, c.get('obj')) == 'm_service']
-    run.check(bool(rs) and bool(polls) and all(any(q.precedes(rn, r, p) and rn.cfg.node_block(r) == rn.cfg.node_block(p) for r in rs) for p in polls), 'R4', 'restart-before-poll', 'sim::simulation::run', rn.loc(),
+    run.check(bool(rs) and bool(polls) and all(any(q.precedes(rn, r, p) and q.paired(rn, r, p) for r in rs) for p in polls), 'R4', 'restart-before-poll', 'sim::simulation::run', rn.loc(),
               'the message queue is not restarted immediately before each poll (a stopped queue polls nothing and the clock runs ahead of ready handlers)', 'm_service.restart() precedes every poll')
 
     run.clause('R2 stop flag written only by stop/restart/run catch-all')
